@@ -20,7 +20,7 @@ impl RpslEvaluator {
         ensures res is Err, *final(self) == *old(self),                                        // OBL:C15.peer_as.error_not_panic
 //@end
 
-//@extract id=with_connection file=lib/src/query.rs impl=/^impl RpslEvaluator/ fn=with_connection rules=R1,R7 r7map=result
+//@extract id=with_connection file=lib/src/query.rs impl=/^impl RpslEvaluator/ fn=with_connection rules=R1,R7,R17 r7map=result
 //@+ sub=/.map_err(Into::into)=>.map_err(|e| e.into())/
 //@sig pub fn with_connection<F, T, E>(&mut self, f: F) -> (res: Result<T, Error>) where F: Fn(&mut Self, &mut Connection) -> Result<T, E>, E: Into<Error>
 //@contract
